@@ -546,6 +546,8 @@ func judgeReadFaultKind(p *bluemonday.Policy, in []byte, j int, readErr error) (
 	if ob == nil || ob.Len() != 0 {
 		return "reader-partial-buffer", fmt.Sprintf("reader failed after %d bytes but SanitizeReader returned a non-empty buffer", j)
 	}
+	// the returned buffer is the caller's: use it, as a caller may (a later failing call must still hand out an empty one)
+	ob.WriteString("caller's own data")
 	return "", ""
 }
 
